@@ -6,7 +6,9 @@ import Sigc.Lemmas.RefineTdB
 reproduced).
 
 The simulation relation `R : Model.St → Spec.LSt → Prop`, the trace relation `Allows` and the result
-relation `ResAllows` are defined in `Sigc/Lemmas/RefineDefs.lean`.
+relation `ResAllows` are defined in `Sigc/Lemmas/RefineDefs.lean`; the line-level relation `AllowsLines`
+(`LineAllows`: equal lines, or `<depth> <operation> => *` in the specification) in `Sigc/Lemmas/RefineTdB.lean`;
+`RE e s t` (`R s t` and `t.err = e`) in `Sigc/Lemmas/RefineTdD.lean`.
 -/
 namespace Sigc.Refine
 open Sigc.Model
@@ -73,80 +75,129 @@ What the correspondence check compares with the real library is `runProgram`: th
 signal object — also the pinned and the functor-owned ones — and every trackable) and the line
 `0 final live=<liveTotal>`. -/
 
+/-- **the specification's run reports no error**: the run of `S'` that matches a terminating run of the mechanism
+    model (`refines_state`) never sets the specification's own error flag (`Spec.LSt.err`: "insert: no list",
+    "emit: no list", "emit: list died during its emission", "forward to a destroyed signal object", "callS: slot
+    variable destroyed during its own call") — the flag is not part of `R`; the simulation is proved once more
+    with `R` and `t.err = none` (`Sigc/Lemmas/RefineTdD–F.lean`). -/
+theorem refines_state_noerr (fuel : Nat) (P : Prog) (s : St) (h : Model.runTop fuel P {} P.top = some s) :
+    ∃ t, Spec.runTop fuel P { k1 := true, k2 := true } P.top = some t ∧ R s t ∧ t.err = none :=
+  let ⟨t, ht, hR⟩ := runTop_simE fuel P P.top none {} _ s Emit.inv_init ⟨init_related, rfl⟩ quiet_init h
+  ⟨t, ht, hR.r, hR.err⟩
+
+example : ∀ fuel s, Model.runTop fuel exProg {} exProg.top = some s →
+    ∃ t, Spec.runTop fuel exProg { k1 := true, k2 := true } exProg.top = some t ∧ R s t ∧ t.err = none :=
+  fun fuel s h => refines_state_noerr fuel exProg s h
+
 /-- **the teardown is simulated**: from related states (`R`) with the model state satisfying the all-history
     invariants (`Emit.Inv`, `Inv.TdInv`) and no emission in progress — all of which hold after every terminating
     `runTop`, see `refines_driver` — whenever the model's teardown terminates, the specification's teardown
-    terminates with the same fuel in a related state, and the model's final state satisfies `Emit.Inv`
-    (in particular `err = none`). -/
+    terminates with the same fuel in a related state without touching its error flag, and the model's final state
+    satisfies `Emit.Inv` (in particular `err = none`). -/
 theorem teardown_sim (fuel : Nat) (P : Prog) (s : St) (t : Spec.LSt) (s' : St) (hs : Emit.Inv s) (hR : R s t)
     (hc : ∀ i, Emit.execOf s i = 0) (htd : Inv.TdInv s) (h : Model.teardown fuel P s = some s') :
-    ∃ t', Spec.teardown fuel P t = some t' ∧ R s' t' ∧ Emit.Inv s' :=
-  let ⟨t', ht', hb⟩ := Td.teardown_bun fuel P ⟨hs, hR, hc, htd⟩ h
-  ⟨t', ht', hb.rel, hb.inv⟩
+    ∃ t', Spec.teardown fuel P t = some t' ∧ R s' t' ∧ Emit.Inv s' ∧ t'.err = t.err :=
+  let ⟨t', ht', hb⟩ := Td.teardown_bun fuel P (e := t.err) ⟨hs, hR, rfl, hc, htd⟩ h
+  ⟨t', ht', hb.rel, hb.inv, hb.err⟩
 
 /-- on the initial states (nothing to destroy) -/
 example : ∀ fuel s', Model.teardown fuel exProg {} = some s' →
-    ∃ t', Spec.teardown fuel exProg { k1 := true, k2 := true } = some t' ∧ R s' t' ∧ Emit.Inv s' :=
+    ∃ t', Spec.teardown fuel exProg { k1 := true, k2 := true } = some t' ∧ R s' t' ∧ Emit.Inv s' ∧ t'.err = none :=
   fun fuel s' h => teardown_sim fuel exProg {} _ s' Emit.inv_init init_related (fun i => by simp [Emit.execOf])
     ⟨Inv.WF.init, Inv.Bal.init, Inv.Inc.init⟩ h
 
 /-- **the refinement theorem for the driver** (`runTop` followed by `teardown`): every terminating run of the
     mechanism model is matched, with the same fuel, by a run of the specification `S'`; the final states are
-    related (`Allows t'.trace s'.trace`), the model reports no error, and neither side holds a functor copy
+    related (`Allows t'.trace s'.trace`), neither side reports an error, and neither side holds a functor copy
     (`final live=0` on both sides). -/
 theorem refines_driver (fuel : Nat) (P : Prog) (s s' : St) (h : Model.runTop fuel P {} P.top = some s)
     (ht : Model.teardown fuel P s = some s') :
     ∃ t t', Spec.runTop fuel P { k1 := true, k2 := true } P.top = some t ∧ Spec.teardown fuel P t = some t' ∧
-      R s' t' ∧ Emit.Inv s' ∧ Model.liveTotal s' = 0 ∧ Spec.liveTotal t' = 0 := by
-  obtain ⟨t, hrun, hR, hs⟩ := refines_state fuel P s h
-  have hc : ∀ i, Emit.execOf s i = 0 := fun i => by
-    rw [(Emit.runTop_good fuel P {} P.top s Emit.inv_init h).frame.exec i]; simp [Emit.execOf]
+      R s' t' ∧ Emit.Inv s' ∧ t'.err = none ∧ Model.liveTotal s' = 0 ∧ Spec.liveTotal t' = 0 := by
+  obtain ⟨t, hrun, hR, he⟩ := refines_state_noerr fuel P s h
+  have g := Emit.runTop_good fuel P {} P.top s Emit.inv_init h
+  have hc : ∀ i, Emit.execOf s i = 0 := fun i => by rw [g.frame.exec i]; simp [Emit.execOf]
   have htd : Inv.TdInv s :=
     ⟨(Inv.Links.reachable fuel P s h).1.1, Inv.Bal.reachable fuel P s h, Inv.Inc.reachable fuel P s h⟩
-  obtain ⟨t', ht', hR', hs'⟩ := teardown_sim fuel P s t s' hs hR hc htd ht
+  obtain ⟨t', ht', hR', hs', he'⟩ := teardown_sim fuel P s t s' g.inv hR hc htd ht
   obtain ⟨_, _, _, hS, _, _, hI⟩ := Inv.teardown_empty fuel P s s' htd ht
-  exact ⟨t, t', hrun, ht', hR', hs', Inv.liveTotal_nil hS hI, spec_liveTotal_zero hR' hS hI⟩
+  exact ⟨t, t', hrun, ht', hR', hs', he'.trans he, Inv.liveTotal_nil hS hI, spec_liveTotal_zero hR' hS hI⟩
 
 example : ∀ fuel s s', Model.runTop fuel exProgG {} exProgG.top = some s → Model.teardown fuel exProgG s = some s' →
     ∃ t t', Spec.runTop fuel exProgG { k1 := true, k2 := true } exProgG.top = some t ∧
-      Spec.teardown fuel exProgG t = some t' ∧ R s' t' ∧ Emit.Inv s' ∧ Model.liveTotal s' = 0 ∧ Spec.liveTotal t' = 0 :=
+      Spec.teardown fuel exProgG t = some t' ∧ R s' t' ∧ Emit.Inv s' ∧ t'.err = none ∧
+      Model.liveTotal s' = 0 ∧ Spec.liveTotal t' = 0 :=
   fun fuel s s' h ht => refines_driver fuel exProgG s s' h ht
 
-/-- **the refinement theorem for what the driver prints** — partial: for every program text whose model run does
-    not run out of fuel, the output of the specification `S'` (driver mode `spec-known`) is some `out` that allows
-    the model's output line by line (equal lines, or `… => *` in the specification) — possibly followed by a
-    `SPEC-ERROR` line.  Missing for the full statement `runProgram_refines` (in the comment below): the
-    specification's own error flag `Spec.LSt.err` is not part of the simulation relation `R`, so the absence of
-    the `SPEC-ERROR` line does not follow from `refines_driver`. -/
-theorem runProgram_refines_partial (lines : List String) (h : Model.runProgram lines ≠ ["MODEL-FUEL"]) :
-    ∃ out, AllowsLines out (Model.runProgram lines) ∧
-      (Spec.runProgram true true lines = out ∨
-       ∃ e : String, Spec.runProgram true true lines = out ++ [s!"SPEC-ERROR {e}"]) := by
-  unfold Model.runProgram at h ⊢
-  unfold Spec.runProgram
-  simp only at h ⊢
+/-- the model's output is the fuel notice exactly when `runTop` runs out of fuel (the teardown runs no user code
+    and terminates with one unit of fuel) -/
+theorem runProgram_fuel_iff (lines : List String) :
+    Model.runProgram lines ≠ ["MODEL-FUEL"] ↔
+      ∃ s, Model.runTop defaultFuel (parseProg lines) {} (parseProg lines).top = some s := by
+  unfold Model.runProgram
+  simp only
   cases h1 : Model.runTop defaultFuel (parseProg lines) {} (parseProg lines).top with
-  | none => rw [h1] at h; exact absurd rfl h
+  | none => simp
   | some s =>
-    rw [h1] at h
-    simp only at h ⊢
-    cases h2 : Model.teardown defaultFuel (parseProg lines) s with
-    | none => rw [h2] at h; exact absurd rfl h
-    | some s' =>
-      obtain ⟨t, t', hr, ht, hR, hs', hl, hl'⟩ := refines_driver _ _ s s' h1 h2
-      rw [hr]
+    simp only
+    obtain ⟨s', h2⟩ := Td.teardown_terminates 999999 (parseProg lines) s
+    have h2' : Model.teardown defaultFuel (parseProg lines) s = some s' := h2
+    rw [h2']
+    simp only
+    refine ⟨fun _ => ⟨s, rfl⟩, fun _ => ?_⟩
+    have hne : ∀ (l : List String) (x : String), l ++ [x] = ["MODEL-FUEL"] → x = "MODEL-FUEL" := by
+      intro l x hx
+      cases l with
+      | nil => simpa using hx
+      | cons a l => cases l <;> simp at hx
+    cases s'.err with
+    | none => simp only; intro hx; exact final_ne_fuel _ (hne _ _ hx)
+    | some e =>
       simp only
-      rw [ht]
-      simp only
-      rw [hs'.noerr]
-      simp only
-      have e : (s!"0 final live={Spec.liveTotal t'}" : String) = s!"0 final live={Model.liveTotal s'}" := by
-        rw [hl, hl']
-      refine ⟨t'.trace.reverse.map renderEvent ++ [s!"0 final live={Spec.liveTotal t'}"], ?_, ?_⟩
-      · rw [e]; exact (lines_of_allows hR.trace).snoc_same _
-      · cases t'.err with
-        | none => exact Or.inl rfl
-        | some e' => exact Or.inr ⟨e', rfl⟩
+      intro hx
+      have := congrArg List.length hx
+      simp at this
+
+/-- **the refinement theorem for what the driver prints**: for every program text whose model run does not run
+    out of fuel (both runners use `defaultFuel`), the output of the specification `S'` — driver mode `spec-known`,
+    `Spec.runProgram true true` — allows the model's output `Model.runProgram` line by line: equal lines, or
+    `<depth> <operation> => *` in the specification for a result the statements leave open; the last line is
+    `0 final live=0` on both sides, and there is neither a `MODEL-ERROR` nor a `SPEC-ERROR` nor a `SPEC-FUEL`
+    line. -/
+theorem runProgram_refines (lines : List String) (h : Model.runProgram lines ≠ ["MODEL-FUEL"]) :
+    AllowsLines (Spec.runProgram true true lines) (Model.runProgram lines) := by
+  obtain ⟨s, h1⟩ := (runProgram_fuel_iff lines).1 h
+  obtain ⟨s', h2⟩ : ∃ s', Model.teardown defaultFuel (parseProg lines) s = some s' :=
+    Td.teardown_terminates 999999 (parseProg lines) s
+  obtain ⟨t, t', hr, ht, hR, hs', he, hl, hl'⟩ := refines_driver _ _ s s' h1 h2
+  unfold Model.runProgram Spec.runProgram
+  simp only
+  rw [h1, hr]
+  simp only
+  rw [h2, ht]
+  simp only
+  rw [hs'.noerr, he]
+  simp only
+  rw [hl, hl']
+  exact (lines_of_allows hR.trace).snoc_same _
+
+/-- the driver on `exProg` (re-entrant emission) with the driver's fuel: both sides terminate, in related states,
+    without errors -/
+example : ∃ s s' t t', Model.runTop defaultFuel exProg {} exProg.top = some s ∧
+    Model.teardown defaultFuel exProg s = some s' ∧
+    Spec.runTop defaultFuel exProg { k1 := true, k2 := true } exProg.top = some t ∧
+    Spec.teardown defaultFuel exProg t = some t' ∧ R s' t' ∧ s'.err = none ∧ t'.err = none := by
+  have h : (Model.runTop defaultFuel exProg {} exProg.top).isSome = true := by decide +kernel
+  obtain ⟨s, hs⟩ := Option.isSome_iff_exists.mp h
+  obtain ⟨s', hs'⟩ : ∃ s', Model.teardown defaultFuel exProg s = some s' := Td.teardown_terminates 999999 exProg s
+  obtain ⟨t, t', a, b, c, d, e, _⟩ := refines_driver defaultFuel exProg s s' hs hs'
+  exact ⟨s, s', t, t', hs, hs', a, b, c, d.noerr, e⟩
+
+/-- the empty program text: the hypothesis holds, both outputs are the final line -/
+example : Model.runProgram [] ≠ ["MODEL-FUEL"] ∧
+    AllowsLines (Spec.runProgram true true []) (Model.runProgram []) ∧ Model.runProgram [] = ["0 final live=0"] :=
+  have h : Model.runProgram [] = ["0 final live=0"] := by decide +kernel
+  ⟨by rw [h]; decide, runProgram_refines [] (by rw [h]; decide), h⟩
 
 /-- related traces contain the same slot invocations -/
 theorem allows_calls {ts tm : List Event} (h : Allows ts tm) : calls ts = calls tm := by
